@@ -5,6 +5,7 @@ import (
 	"bytes"
 	"errors"
 	"fmt"
+	"golang.org/x/crypto/nacl/secretbox"
 	"io"
 	"runtime"
 	"strconv"
@@ -316,6 +317,41 @@ func genHostile(h *H) {
 		}
 		h.tag("mut:" + mut)
 		h.Run(Case{Op: "hostile", A: map[string]string{"input": hx(input), "keys": keysOf(p), "signers": signersOf(p), "ring": strconv.Itoa(h.rng.Intn(840)), "mut": mut}})
+	}
+	// packets forged by someone who holds the keys (a co-recipient, the sender): correctly keyed
+	// and authenticated, but with every inner length around the fixed-size fields
+	{
+		bsk, ssk2 := h.randBoxSk(), h.randSigKey()
+		psc := &refSc{format: "saltpack", major: 2, minor: 0, mode: 3, signerSk: ssk2, ephSk: h.randBoxSk(), payloadKey: h.rng.Bytes(32),
+			rcpts: []refScRcpt{{boxPk: boxPk(bsk)}}, chunks: [][]byte{[]byte("x")}}
+		hdr := psc.header()
+		hh := sha(hdr)
+		for l := 0; l <= 80; l++ {
+			for _, final := range []bool{true, false} {
+				if !thorough && final != (l%2 == 0) {
+					continue
+				}
+				ct := secretbox.Seal(nil, h.rng.Bytes(l), hashNonce(hh, final, 0), k32(psc.payloadKey))
+				wire := append(mpEnc(nBin(hdr)), mpEnc(nArr(nBin(ct), nBool(final)))...)
+				h.tag("keyed-short-packet:sc")
+				h.Run(Case{Op: "hostile", A: map[string]string{"input": hx(wire), "keys": ringKeysStr([][]byte{bsk}), "signers": blist([][]byte{ssk2[32:]}), "ring": "0", "mut": "sc-keyed-inner-length-" + strconv.Itoa(l)}})
+			}
+		}
+		// encryption: the recipient's authenticator is valid, the ciphertext is arbitrary bytes of every short length
+		rsk, esk := h.randBoxSk(), h.randBoxSk()
+		for _, mj := range []int{1, 2} {
+			for l := 0; l <= 40; l++ {
+				if !thorough && l > 20 && l%4 != 0 {
+					continue
+				}
+				garbage := h.rng.Bytes(l)
+				pe := &refEnc{format: "saltpack", major: mj, minor: 0, mode: 0, senderSk: esk, ephSk: h.randBoxSk(), payloadKey: h.rng.Bytes(32),
+					rcpts: []refRcpt{{pk: boxPk(rsk)}}, chunks: [][]byte{[]byte("y")}, noTerminator: true,
+					ctOverride: func(n int, ct []byte) []byte { return garbage }}
+				h.tag("keyed-short-packet:enc")
+				h.Run(Case{Op: "hostile", A: map[string]string{"input": hx(pe.seal()), "keys": ringKeysStr([][]byte{rsk}), "signers": "_", "ring": "0", "mut": "enc-authenticated-ciphertext-length-" + strconv.Itoa(l)}})
+			}
+		}
 	}
 	for i, b := range lengthBombs() {
 		for _, ring := range []int{0, 1, 9} {
